@@ -93,6 +93,9 @@ CLAIMED = {
     "C12": ("Coq proof (pruning with constant columns skipped = the declarative mask over all objective / reservation columns with fused-loop tile shapes required equal, built on C11's verified mask; deleting agreed columns never changes the mask; column classification; order-faithful rounding gives the (1+t) bound) + differential correspondence with the real makepareto",
             "C12_zero_tol_exact, C12_const_cols, C12_classify, C12_tol_bound; the real makepareto is run on random pmapping tables (objective, reservation, fused-loop, n_iterations, tensor, per-Einsum and mapping columns, constant columns, shuffled order): at zero tolerance the kept index set equals the vm_compute-evaluated model and the declarative oracle, with tolerances every dropped row is (1+t)-dominated by a kept row with equal fused shapes; the rounding hypothesis is validated on numpy's log-grid rounding.",
             "Coq kernel; values as ranks; numpy rounding outside the model (hypothesis of C12_tol_bound)"),
+    "C07": ("Coq proof (a symbolic evaluator over an expression language mirrors the analytical model node for node; its formulas denote, under every assignment, the concrete model's and - on perfect assignments - the brute-force execution's counts of the instantiated mapping; same for holder occupancies) + the real run_model formulas, captured inside a real mapper run, against concrete evaluation at every perfect assignment",
+            "C07_symbolic_is_concrete, C07_symbolic_is_execution, C07_symbolic_occupancy; every pmapping template the real mapper builds for random single-Einsum specs is captured together with run_model's formulas; at every perfect assignment (capped per template) every formula (latency, dynamic / leak energy, per-component actions, per-memory usage) is evaluated by exact substitution and by the code's own compile_dict path and compared with the concrete evaluation of the instantiated mapping (python twin of MiniForge for all, real evaluate_mapping for a sample); the rows of the table _make_tile_shapes emits are compared the same way; the Coq symbolic evaluator is run on the same templates. PARTIAL: single Einsum, temporal loops and memories (MiniForge class); sympy / symengine / lambdify are oracles.",
+            "Coq kernel; MiniForge modelled class; sympy arithmetic trusted as oracle and checked end to end"),
 }
 
 PENDING_REASON = "check not built yet in this round (planned, see DESIGN.md section 6); not claimed until its proof and correspondence exist"
